@@ -26,9 +26,9 @@ func (i *raceInfo) IsRemoteServiceForSKIPaired(string) bool { return true }
 func (i *raceInfo) HandleConnectionClosed(api.ShipConnectionInterface, bool) {
 	i.reports.Add(1)
 }
-func (i *raceInfo) ReportServiceShipID(string, string)    {}
-func (i *raceInfo) AllowWaitingForTrust(string) bool      { return true }
-func (i *raceInfo) IsAutoAcceptEnabled() bool             { return false }
+func (i *raceInfo) ReportServiceShipID(string, string)                     {}
+func (i *raceInfo) AllowWaitingForTrust(string) bool                       { return true }
+func (i *raceInfo) IsAutoAcceptEnabled() bool                              { return false }
 func (i *raceInfo) HandleShipHandshakeStateUpdate(string, model.ShipState) {}
 func (i *raceInfo) SetupRemoteDevice(string, api.ShipConnectionDataWriterInterface) api.ShipConnectionDataReaderInterface {
 	return nil
